@@ -92,12 +92,20 @@ def gen_one(rng, nops, sched):
         elif r < 0.52:
             ops.append('M,%d,%d,%d' % (c, uni(), rng.choice([0, 1, 1])))
         elif r < 0.55:
-            ops.append('N,%d,%d,%s' % (c, uni(), rng.choice(NAMES)))
+            if rng.random() < 0.15:
+                nm = hx([rng.randrange(32, 127) for _ in range(rng.choice([2040, 2100, 4090, 4200, 6000, 9000]))])
+            else:
+                nm = rng.choice(NAMES)
+            ops.append('N,%d,%d,%s' % (c, uni(), nm))
         elif r < 0.58:
             ops.append('I,%d,%d' % (c, uni()))
-        elif r < 0.595:
+        elif r < 0.585:
             ops.append('P,%d,%d' % (c, uni()))
-        elif r < 0.63:
+        elif r < 0.61:
+            kd = rng.randrange(11)
+            arg = rng.choice([0, 1, 100, 2000, 2100, 4000, 4100, 5000, 9000, 20000]) if kd == 5 else uni()
+            ops.append('X,%d,%d,%d' % (c, kd, arg))
+        elif r < 0.64:
             if len(closed) < ncl - 1 or rng.random() < 0.3:
                 ops.append('D,%d' % c)
                 closed.add(c)
@@ -194,6 +202,33 @@ def gen_same_iteration(rng):
     ops += ['*', 'F,2,%d' % u, '*']
     return '3 %s' % ' '.join(ops)
 
+def gen_scale(rng):
+    """Scale of a single request / reply after small traffic on the same connection: long universe
+    names (large argument, then large info / list replies), many universes in a list reply, a large
+    ConfigureDevice payload; every request kind completes exactly once."""
+    ncl = rng.choice([2, 3])
+    c = rng.randrange(ncl)
+    ops = ['G,%d,1,1' % c, '*', 'F,%d,1' % c, '*']              # small traffic first: 2 KiB buffers
+    kindsel = rng.random()
+    if kindsel < 0.4:
+        n = rng.choice([2040, 2100, 4090, 4200, 6000, 9000, 15000])
+        ops += ['N,%d,1,%s' % (c, hx([rng.randrange(32, 127) for _ in range(n)])), '*',
+                'I,%d,1' % rng.randrange(ncl), '*', 'X,%d,8,0' % rng.randrange(ncl), '*']
+    elif kindsel < 0.7:
+        nu = rng.choice([60, 120, 250, 400])
+        for u in range(2, 2 + nu):
+            ops.append('G,%d,%d,1' % (c, u))
+            if u % 50 == 0:
+                ops.append('*')
+        ops += ['*', 'X,%d,8,0' % rng.randrange(ncl), '*', 'X,%d,8,0' % c, '*']
+    else:
+        ops += ['X,%d,5,%d' % (c, rng.choice([2040, 2100, 4090, 4200, 6000, 9000, 30000])), '*']
+    for _ in range(rng.choice([1, 2, 3])):
+        kd = rng.randrange(11)
+        ops += ['X,%d,%d,%d' % (rng.randrange(ncl), kd, rng.choice([1, 2, 7])), '*']
+    ops += ['S,%d,1,100,0a0b' % c, '*', 'F,%d,1' % c, '*']
+    return '%d %s' % (ncl, ' '.join(ops))
+
 def gen_cases(rng, tier):
     n = 900 if tier == 'quick' else 30000
     for i in range(n):
@@ -204,6 +239,8 @@ def gen_cases(rng, tier):
         yield gen_repeat(rng)
     for i in range(n // 6):
         yield gen_same_iteration(rng)
+    for i in range(n // 30):
+        yield gen_scale(rng)
 
 def nontrivial(payload, md):
     obs = md.get('obs', '')
@@ -212,7 +249,7 @@ def nontrivial(payload, md):
 RULE = ('histories of 6-36 client-library calls by 2-4 real OlaClient instances (in a fifth of the histories one of them a real StreamingClient over loopback TCP) against one real OlaServer '
         '(acked/streamed/raw-protobuf sends with frame sizes {0,1,2,3,4,512,513,600} and priorities '
         '{0,1,99,100,101,199,200,201,255 | absent,256,300,456,511,2^31-1}, fetch, register/unregister, merge mode, '
-        'name, info, patch, disconnects anywhere, half of the histories drawing frames/priorities from a 2-3 entry palette so senders repeat identical frames, plus dedicated repeat-identical-frame histories (acked and streamed, LTP/HTP, with a higher-priority sender going quiet across the 2.5 s source timeout), histories in which frames of two senders are dispatched in the same event-loop iteration while the clock moves on (ops J/}: wake-up time vs fresh clock), clock ticks {0,1,1000,2499999,2500000,2500001 us}, housekeeping); '
+        'name (up to 15000 characters), info, patch and ten further request kinds as opaque completions (plugin list/description/state, device info, candidate ports, ConfigureDevice with payloads up to 30000 bytes, port priority, cached discovery, universe list with up to 400 universes, source UID), disconnects anywhere, half of the histories drawing frames/priorities from a 2-3 entry palette so senders repeat identical frames, plus dedicated repeat-identical-frame histories (acked and streamed, LTP/HTP, with a higher-priority sender going quiet across the 2.5 s source timeout), histories in which frames of two senders are dispatched in the same event-loop iteration while the clock moves on (ops J/}: wake-up time vs fresh clock), clock ticks {0,1,1000,2499999,2500000,2500001 us}, housekeeping); '
         '1/3 drained after every call, 2/3 with an explicit random schedule of per-channel deliveries; compared after '
         'every step; non-trivial = at least one successful completion and one DMX push delivered to a registered '
         'client; distinct = distinct model output line')
